@@ -279,8 +279,11 @@ func runC09(c c09Case, rng *rand.Rand, r *rep.Report) (key, msg string, stats ma
 					if cand.DialCandidateWS() == nil {
 						time.Sleep(time.Millisecond)
 						frames := []string{"2probe", "5", "2", "3", "2", "4x", "3", "1"}
-						if rng.IntN(3) == 0 {
+						switch rng.IntN(4) {
+						case 0:
 							frames = []string{"2probe", "2", "3", "5", "2", "3", "4x", "1"}
+						case 1:
+							frames = []string{"2probe", "2probe", "2probe", "2probe", "2probe"}
 						}
 						for _, f := range frames {
 							cand.WSWriteRaw(false, []byte(f))
